@@ -13,7 +13,9 @@ use serde_json::{json, Value};
 
 const SEG: usize = 1400;
 /// segment sizes of the chains: full-size, small, single byte
-pub const SIZES: [usize; 3] = [1400, 64, 1];
+pub const SIZES: [usize; 4] = [1400, 64, 1, 16000];
+/// chains of jumbo segments are cut at this many segments (64 MB of payload)
+const JUMBO_SEGMENTS: usize = 4096;
 /// The verdict is about growth with the segment index, not about the footprint an implementation chooses:
 ///  * below the soft limits nothing is demanded;
 ///  * above them the second half of the chain must not exceed the first half (retained: + 64 KiB; per packet: x 1.25 + 64 KiB),
@@ -24,7 +26,7 @@ pub const PER_PACKET_LIMIT: usize = 1024 * 1024 + 64 * SEG;
 pub const RETAINED_HARD: isize = 8 * 1024 * 1024;
 pub const PER_PACKET_HARD: usize = 16 * 1024 * 1024;
 
-pub const KINDS: [&str; 13] = [
+pub const KINDS: [&str; 15] = [
     "http-head-never-ends",
     "tls-application-data",
     "random-bytes",
@@ -39,6 +41,9 @@ pub const KINDS: [&str; 13] = [
     "many-9-byte-non-hello-handshake-records",
     "h2-preface-settings-then-many-small-frames",
     "http-head-of-many-short-lines",
+    // the first 100 bytes after the SYN are never seen: everything that arrives lies behind a hole in the sequence space
+    "binary-data-behind-a-sequence-hole",
+    "http-head-behind-a-sequence-hole",
 ];
 
 /// kinds whose byte stream is a prefix followed by one unit repeated for ever
@@ -55,7 +60,8 @@ fn periodic(kind: &str) -> Option<(Vec<u8>, Vec<u8>)> {
         "many-9-byte-non-hello-handshake-records" => Some((vec![], vec![0x16, 3, 3, 0, 4, 14, 0, 0, 0])),
         // PING frames (type 6, 8 bytes) on stream 0 after the preface and an empty SETTINGS frame
         "h2-preface-settings-then-many-small-frames" => Some(([b"PRI * HTTP/2.0\r\n\r\nSM\r\n\r\n".to_vec(), vec![0, 0, 0, 4, 0, 0, 0, 0, 0]].concat(), vec![0, 0, 8, 6, 0, 0, 0, 0, 0, 1, 2, 3, 4, 5, 6, 7, 8])),
-        "http-head-of-many-short-lines" => Some((b"GET / HTTP/1.1\r\nHost: h\r\n".to_vec(), b"X: y\r\n".to_vec())),
+        "http-head-of-many-short-lines" | "http-head-behind-a-sequence-hole" => Some((b"GET / HTTP/1.1\r\nHost: h\r\n".to_vec(), b"X: y\r\n".to_vec())),
+        "binary-data-behind-a-sequence-hole" => Some((vec![], vec![0xee, 0x01, 0x80, 0xff, 0x16, 0x03, 0x7f])),
         _ => None,
     }
 }
@@ -160,7 +166,7 @@ fn stream_slice(kind: &str, from: usize, len: usize) -> Vec<u8> {
 
 pub fn chain_frame(kind: &str, from_client: bool, i: usize, size: usize) -> Vec<u8> {
     let (src, sport, dst, dport) = if from_client { (1u8, 40000u16, 2u8, 443u16) } else { (2, 443, 1, 40000) };
-    pkt::build(&Spec { src, sport, dst, dport, flags: ACK | PSH, seq: 1001u32.wrapping_add((i * size) as u32), ack: 1, payload: stream_slice(kind, i * size, size), ..Spec::default() })
+    pkt::build(&Spec { src, sport, dst, dport, flags: ACK | PSH, seq: 1001u32.wrapping_add(if kind.ends_with("behind-a-sequence-hole") { 100 } else { 0 }).wrapping_add((i * size) as u32), ack: 1, payload: stream_slice(kind, i * size, size), ..Spec::default() })
 }
 
 /// one chain on one analyzer; returns per-packet (retained, allocated) or the first violation
@@ -332,7 +338,7 @@ pub fn run(thorough: bool) -> Outcome {
     let rep = par_slices(jobs.len(), jobs.len(), |rg| {
         let mut r = Report::new();
         for i in rg {
-            run_chain(&mut r, &jobs[i].0, &jobs[i].1, jobs[i].2, n, jobs[i].3);
+            run_chain(&mut r, &jobs[i].0, &jobs[i].1, jobs[i].2, if jobs[i].3 >= 9000 { n.min(JUMBO_SEGMENTS) } else { n }, jobs[i].3);
         }
         r
     });
@@ -344,7 +350,7 @@ pub fn run(thorough: bool) -> Outcome {
     }
     Outcome {
         report: total,
-        rule: "deterministic chains: SYN, SYN+ACK, then N segments (1400, 64 or 1 byte each, same byte stream) of 13 never-fingerprinting traffic kinds (incl. many complete small records / frames / lines per segment) x both directions x 4 analyzers; after EVERY packet the bytes retained since the connection started and the bytes allocated while handling the packet are recorded (counting allocator, per thread): hard limits 8 MiB / 16 MiB at every step; above the soft limits (256 KiB retained, 1 MiB + 64 x segment size per packet) the second half of the chain must not exceed the first (retained + 64 KiB, per packet x 1.25 + 64 KiB); capacity families: capacity + k connections (k >= capacity) for capacities 1, 8, 64, 1000 must not retain more than 1.25 x what `capacity` connections retain + 256 KiB; distinct = distinct (chain, peak) outcomes".into(),
+        rule: "deterministic chains: SYN, SYN+ACK, then N segments (1400, 64, 1 or 16000 bytes each, same byte stream; jumbo chains stop at 4096 segments) of 15 never-fingerprinting traffic kinds (incl. many complete small records / frames / lines per segment) x both directions x 4 analyzers; after EVERY packet the bytes retained since the connection started and the bytes allocated while handling the packet are recorded (counting allocator, per thread): hard limits 8 MiB / 16 MiB at every step; above the soft limits (256 KiB retained, 1 MiB + 64 x segment size per packet) the second half of the chain must not exceed the first (retained + 64 KiB, per packet x 1.25 + 64 KiB); capacity families: capacity + k connections (k >= capacity) for capacities 1, 8, 64, 1000 must not retain more than 1.25 x what `capacity` connections retain + 256 KiB; distinct = distinct (chain, peak) outcomes".into(),
         exhaustive: true,
         bounds: json!({"segments_per_chain": n, "segment_bytes": SIZES, "chains": jobs.len(), "retained_limit": RETAINED_LIMIT, "per_packet_limit": PER_PACKET_LIMIT}),
     }
